@@ -193,6 +193,37 @@ CHECKS.append({
             "doubles are derived in ASSUMPTIONS; needs the two committed C16 fixes.",
 })
 
+CHECKS.append({
+    "property_id": "C08",
+    "category": "proof",
+    "technique": "Lean 4 proof that the Edmonds-Karp mirror returns a maximum flow with its minimum cut for every input "
+                 "(max_flow_correct_arcs) + verified max-flow/min-cut checker on the implementation's flow + mirror "
+                 "correspondence",
+    "text": "max_flow_correct / max_flow_correct_arcs, cut_cert, chkMaxFlow_sound, chk_feasible_iff, chk_value_iff, "
+            "augment_preserves_feasible (incl. cancel-reverse-first and anti-parallel arcs), ek_terminates, ek_certifies hold "
+            "for every arc list with non-negative integer capacities and s != t. On every run the dict max_flow returns is "
+            "pushed through the verified checker together with the mirror's cut (capacity, conservation, value = objective = "
+            "cut capacity), and flow dict and objective are compared with the mirror.",
+    "note": "Trusted: dict/deque semantics as modelled, the harness; source == sink is excluded (recorded only); the model "
+            "mirrors the code with the committed reverse-residual-key fix (unrepaired_not_maximum proves the old code wrong).",
+})
+CHECKS.append({
+    "property_id": "C09",
+    "category": "proof",
+    "technique": "Lean 4 certificate theorems (reduced-cost optimality, infeasibility cut, assignment <-> flow) with verified "
+                 "checkers and a certifying successive-shortest-paths reference, evaluated in Lean on every output of "
+                 "min_cost_flow / network_simplex / solve_assignment; known findings matched by narrow class predicates",
+    "text": "reduced_cost_cert, infeasible_cut_cert, chkMinCost_sound, chkInfeas_sound, certified_verdict_unique, "
+            "assignment_of_flow, assignment_optimal_of_cert, certify_sound, ssp_sound, ssp_sound_transshipment, "
+            "pair_costs_faithful_partial / pair_costs_misprice. For every explored instance the optimum or infeasibility is "
+            "proved in Lean by an accepted certificate; the solvers' outputs must be feasible, integral, cost = sum cost*flow "
+            "= certified optimum, INFEASIBLE iff certified infeasible, agree on common instances, and return.",
+    "note": "[S] ssp_certifies (the SSP model always ends with an accepted certificate) is not proved: a missing certificate "
+            "on an explored input is an infrastructure error, never a verdict. No network_simplex mirror. Known findings "
+            "(known_findings.json): min_cost_flow's one-cost-per-node-pair table on instances with anti-parallel or "
+            "mixed-cost parallel arcs; network_simplex's basis-tree update (class decided by tracing the tree invariant).",
+})
+
 _PENDING = "check not built yet in this round (planned in DESIGN.md §4); no claim made"
 NOT_APPLICABLE = [
     {"property_id": f"C{i:02d}", "reason": _PENDING}
